@@ -57,11 +57,12 @@ PLAN = {
     },
     "C02": {
         "level": "fault_enumeration",
-        "rule": "scenario = 1-4 consecutive injector lifetimes of 0-8 installs over 2-6 packed targets with repetition, exit by drop or injected panic, on a seeded layout/kernel; distinct = distinct (variant, history shape, layout, policy) class tuples among non-trivial scenarios",
+        "rule": "scenario = 1-4 consecutive injector lifetimes of 0-8 installs over 2-6 packed targets with repetition, exit by drop or injected panic, on a seeded layout/kernel; plus (engine N) histories whose targets include C runtime routines (memcmp/bcmp faked to answer different, strlen, strcmp, memchr, ...) judged with volatile byte loops only; distinct = distinct (variant, history shape, layout, policy) class tuples among non-trivial scenarios",
         "assumptions": [A_S, A_N],
         "parts": [s_part("S-histories", "C02", LINUX3, 24000, 2400000),
                   s_part("S-histories-windows-macos", "C02", "x86_64_windows,aarch64_windows,aarch64_macos,x86_64_macos", 800, 40000, selftest=40),
-                  n_part("N-histories", "C02", 640, 64000)],
+                  n_part("N-histories", "C02", 640, 64000),
+                  n_part("N-c-runtime-targets", "C02", 160, 16000, selftest=16, extra_args=["--family", "crt"])],
     },
     "C03": {
         "level": "fault_enumeration",
